@@ -49,7 +49,7 @@ theorem byteToBits_ofNat (a : List Bool) (ha : a.length = 8) : byteToBits (UInt8
   rwa [ha] at h
 
 /-- packing aligned bits into bytes and unpacking gives the bits back -/
-theorem bytesToBits_bitsToBytes (l : List Bool) (h : l.length % 8 = 0) : bytesToBits (bitsToBytes l) = l := by
+theorem bytesToBits_bitsToBytes_aligned (l : List Bool) (h : l.length % 8 = 0) : bytesToBits (bitsToBytes l) = l := by
   generalize hn : l.length = n
   induction n using Nat.strong_induction_on generalizing l with
   | _ n ih =>
@@ -100,7 +100,7 @@ theorem stripLoop_tag (k m : Nat) (r : List Bool) :
 theorem setTopUpped_toppedUp (l : List Bool) :
     setTopUpped (toppedUp l) (decide (l.length % 8 = 0)) = .ok l := by
   unfold setTopUpped toppedUp
-  rw [bytesToBits_bitsToBytes _ (addTag_length_mod l)]
+  rw [bytesToBits_bitsToBytes_aligned _ (addTag_length_mod l)]
   by_cases h : l.length % 8 = 0
   · simp [h, addTag]
   · have hne : (bitsToBytes (addTag l)).isEmpty = false := by
